@@ -687,7 +687,7 @@ func permutations(n int, f func(p []int)) {
 }
 
 func main() {
-	tr.Main("heapq histories built in phases against a shadow queue (ascending, descending, zig-zag and random insertion runs reaching 4-6 heap levels, interior Remove by index and by reported position followed by full drains, Reorder and Set mid-life, NewWithData adoption, Clear/New, Update(nil) for a while and Update(callback) again, negative and out-of-range Remove/Peek, Front/Pop on empty, Each with early stop; key ranges from 3 (many duplicates) to 1000; eight comparison functions at New/NewWithData/Reorder/Sort: by key in both directions, 3*(a-b) and 7*(b-a), key/4 in both directions (coarse), constant 0, by payload; Adds and Removes are tagged by the trigger conditions of findings F1/F2; C05 also repeats whole elements, C06 keeps payloads distinct); exhaustive small scopes: every insertion order of 1..5 then drain, every heap-ordered array of 5..7 (thorough 5..9) distinct keys through Set then Remove(i) for every i then drain, every permutation of 1..5 (thorough 1..6) through Set then Remove(i) then drain, every permutation of 1..5 through NewWithData in both directions and under the six other comparison functions with a Reorder to a coarse one; every heap-ordered array of 3..7 keys through Set then Add of every rank then drain; heapq.Sort on random slices of length 0..40 in both directions; Set on heapq.Queue[struct{}] of 0..4096 and of more than 2^62 elements (known finding F14). Scale stream (B lines, batched operations, records bounded by FNV digests of the layout, of the sorted contents and of the callback log): queues of 2^k-1, 2^k, 2^k+1 elements for k up to 12 built by Add, by Set and by NewWithData (spare capacity too) from arithmetic key patterns (ascending, descending, zig-zag, all equal, runs of 33..100 equal keys, random over 2..100000 keys) with distinct payloads, every observer on them (Len, IsEmpty, Front, Each to the end and stopped, Peek at every offset, Peek(-1), Peek(Len)), one interior Remove per heap level, Remove through reported positions, grow / drain to an eighth..a half by Pop / observe / regrow / drain, Reorder in mid-life at even and odd sizes, Update(nil) .. Update(callback) cycles in mid-life, Set with an empty and a one-element slice as a reset and a big Set into the old buffer, long runs of equal priorities, random batched histories up to 5000 elements; heapq.Sort of 2^k-1, 2^k, 2^k+1 elements up to 1025. Non-trivial: the history held at least 8 elements at some point, or a Sort of at least 2 elements.",
+	tr.Main("heapq histories built in phases against a shadow queue (ascending, descending, zig-zag and random insertion runs reaching 4-6 heap levels, interior Remove by index and by reported position followed by full drains, Reorder and Set mid-life, NewWithData adoption, Clear/New, Update(nil) for a while and Update(callback) again, negative and out-of-range Remove/Peek, Front/Pop on empty, Each with early stop; key ranges from 3 (many duplicates) to 1000; eight comparison functions at New/NewWithData/Reorder/Sort: by key in both directions, 3*(a-b) and 7*(b-a), key/4 in both directions (coarse), constant 0, by payload; Adds and Removes are tagged by the trigger conditions of findings F1/F2; C05 also repeats whole elements, C06 keeps payloads distinct); exhaustive small scopes: every insertion order of 1..5 then drain, every heap-ordered array of 5..7 (thorough 5..9) distinct keys through Set then Remove(i) for every i then drain, every permutation of 1..5 (thorough 1..6) through Set then Remove(i) then drain, every permutation of 1..5 through NewWithData in both directions and under the six other comparison functions with a Reorder to a coarse one; every heap-ordered array of 3..7 keys through Set then Add of every rank then drain; heapq.Sort on random slices of length 0..40 in both directions; Set on heapq.Queue[struct{}] of 0..4096 and of more than 2^62 elements (known finding F14). Scale stream (B lines, batched operations, records bounded by FNV digests of the layout, of the sorted contents and of the callback log): queues of 2^k-1, 2^k, 2^k+1 elements for k up to 12 built by Add, by Set and by NewWithData (spare capacity too) from arithmetic key patterns (ascending, descending, zig-zag, all equal, runs of 33..100 equal keys, random over 2..100000 keys) with distinct payloads, every observer on them (Len, IsEmpty, Front, Each to the end and stopped, Peek at every offset, Peek(-1), Peek(Len)), one interior Remove per heap level, Remove through reported positions, grow / drain to an eighth..a half by Pop / observe / regrow / drain, Reorder in mid-life at even and odd sizes, Update(nil) .. Update(callback) cycles in mid-life, Set with an empty and a one-element slice as a reset and a big Set into the old buffer, long runs of equal priorities, random batched histories up to 3000 elements; heapq.Sort of 2^k-1, 2^k, 2^k+1 elements up to 1025. Non-trivial: the history held at least 8 elements at some point, or a Sort of at least 2 elements.",
 		exec, func(g *tr.G) {
 			dup := g.Prop != "C06"
 			// exhaustive small scopes
